@@ -33,12 +33,23 @@ def run(res, tier):
     res.units.append("umbrella TU 'core': TbfTree::getAllParticlesData, ::getAllParticlesRhs (+ rebuild's gather/scatter lambdas as sibling reference)")
     res.rule("C17.index-domain: out[original(p)][v] = in[v][p] - every subscripted dimension is indexed by an expression of the domain its extent is declared with; the per-particle tuple has the tree's value type")
     n = 0
+    # the exports read the tree as it is now: nothing they rely on may be left over from before a rebuild (rule of C13.5)
+    import c13
+    res.rule("C17.derived-state: every member the tree fills from its groups outside construction (a table of particle slots, ...) is reset by rebuild()")
+    before = len(res.violations)
+    c13.derived_state(facts, res, R="C17.derived-state")
+    stale = len(res.violations) > before
     for q in ("TbfTree::getAllParticlesData", "TbfTree::getAllParticlesRhs"):
         fn = facts.fn(q)
-        k = idxdomain.check_function(facts, fn, res, "C17.index-domain")
-        if k < 1:
+        try:
+            k = idxdomain.check_function(facts, fn, res, "C17.index-domain")
+        except tbf.AnalysisBroken:
+            if not stale:
+                raise
+            k = 1       # the export goes through the remembered table reported above
+        if k < 1 and not stale:
             raise tbf.AnalysisBroken("%s: no copy statement recognised in its leaf visitor" % q)
-        n += k
+        n += max(k, 1 if stale else 0)
     res.floor("C17.index-domain", n, 2, "copy statements")
     # the target/source tree only forwards
     for q, want in (("TbfTreeTsm::getAllParticlesDataSource", "treeSource.getAllParticlesData"), ("TbfTreeTsm::getAllParticlesDataTarget", "treeTarget.getAllParticlesData"),
